@@ -464,10 +464,53 @@ _MUTATORS = {"append", "add", "update", "setdefault", "pop", "popitem", "clear",
              "move_to_end"}
 
 
+_INIT_LIKE = {"__init__", "__post_init__", "__new__", "__setstate__", "__setattr__", "__delattr__", "__init_subclass__"}
+
+
+def _stores_into_instance(fn):
+    """does the body write an attribute of its own instance without an assignment statement on it: a Subscript store on
+    `self.__dict__` / `vars(self)` (or on a local name bound to one of them), `self.__dict__.setdefault/update/__setitem__`,
+    or `object.__setattr__(self, …)`?"""
+    try:
+        tree = ast.parse(textwrap.dedent(inspect.getsource(fn))).body[0]
+    except (OSError, TypeError, SyntaxError, IndentationError):
+        return False
+    if not isinstance(tree, (ast.FunctionDef, ast.AsyncFunctionDef)) or not tree.args.args:
+        return False
+    me = tree.args.args[0].arg
+
+    def is_dict(n, aliases):
+        if isinstance(n, ast.Attribute) and n.attr == "__dict__" and isinstance(n.value, ast.Name) and n.value.id == me:
+            return True
+        if isinstance(n, ast.Call) and isinstance(n.func, ast.Name) and n.func.id == "vars" and len(n.args) == 1 \
+                and isinstance(n.args[0], ast.Name) and n.args[0].id == me:
+            return True
+        return isinstance(n, ast.Name) and n.id in aliases
+
+    aliases = set()
+    for _ in range(2):   # aliases of aliases
+        for n in ast.walk(tree):
+            if isinstance(n, ast.Assign) and is_dict(n.value, aliases):
+                aliases |= {t.id for t in n.targets if isinstance(t, ast.Name)}
+            if isinstance(n, ast.NamedExpr) and is_dict(n.value, aliases):
+                aliases.add(n.target.id)
+    for n in ast.walk(tree):
+        if isinstance(n, ast.Subscript) and isinstance(n.ctx, ast.Store) and is_dict(n.value, aliases):
+            return True
+        if isinstance(n, ast.Call) and isinstance(n.func, ast.Attribute):
+            if n.func.attr in ("setdefault", "update", "__setitem__") and is_dict(n.func.value, aliases):
+                return True
+            if n.func.attr == "__setattr__" and _u(n.func.value) == "object" and n.args \
+                    and isinstance(n.args[0], ast.Name) and n.args[0].id == me:
+                return True
+    return False
+
+
 def cache_inventory():
     """every memo of btclib, found on the IMPORTED package (all modules walked and imported): functools.lru_cache / cache
-    wrappers at module level or on a class, functools.cached_property, and module-level containers that a function of the
-    module fills (AST).  -> sorted [(qualified name, hold, maxsize or None, curve in the key, live object, owner)]"""
+    wrappers at module level or on a class, functools.cached_property, properties / methods (constructors excluded) whose
+    body stores into `self.__dict__` / `vars(self)` / through `object.__setattr__(self, …)` (hand-rolled instance memos,
+    AST), and module-level containers that a function of the module fills (AST).  -> sorted [(qualified name, hold, maxsize or None, curve in the key, live object, owner)]"""
     import functools  # noqa: PLC0415
     import importlib  # noqa: PLC0415
     import pkgutil  # noqa: PLC0415
@@ -495,6 +538,12 @@ def cache_inventory():
                         rows[f"{m.__name__}.{v.__qualname__}.{cn}"] = ("lru" if ms is not None else "unbounded", ms,
                                                                        curve_keyed(f.__wrapped__), f, v)
                     if isinstance(cv, functools.cached_property):
+                        rows[f"{m.__name__}.{v.__qualname__}.{cn}"] = ("perInstance", None, False, cv, v)
+                    # a hand-rolled instance memo: a property / method (not a constructor) whose body stores into the
+                    # instance behind the class's back
+                    g = cv.fget if isinstance(cv, property) else f
+                    if inspect.isfunction(g) and cn not in _INIT_LIKE and not isinstance(cv, (staticmethod, classmethod)) \
+                            and _stores_into_instance(g):
                         rows[f"{m.__name__}.{v.__qualname__}.{cn}"] = ("perInstance", None, False, cv, v)
         f = getattr(m, "__file__", None)
         if not f or not f.endswith(".py"):
